@@ -78,6 +78,7 @@ type Case struct {
 	Done     int    `json:"done"`     // 1: Schedule gets a done channel with a prompt reader, as the agent passes one
 	Handler  string `json:"handler"`  // "": the printing node is a step; exit | success | failure | cancel: that handler
 	Same     int    `json:"same"`     // 1: `stdout:` and `stderr:` name the SAME file (both set); 2: ... and the file exists before the run
+	Full     int    `json:"full"`     // 1: the `stdout:` target is /dev/full (every write fails, ENOSPC); 2: the `stderr:` target is
 	// observations
 	Hang       bool                `json:"hang"`
 	Err        string              `json:"err,omitempty"`
@@ -298,10 +299,16 @@ func workerMain() {
 		y.WriteString("    command: sh -c \"" + emit + "\"\n")
 	}
 	if c.Stdout {
-		y.WriteString("    stdout: " + filepath.Join(dir, "stdout.txt") + "\n")
+		if c.Full == 1 {
+			y.WriteString("    stdout: /dev/full\n")
+		} else {
+			y.WriteString("    stdout: " + filepath.Join(dir, "stdout.txt") + "\n")
+		}
 	}
 	if c.Stderr {
-		if c.Same > 0 {
+		if c.Full == 2 {
+			y.WriteString("    stderr: /dev/full\n")
+		} else if c.Same > 0 {
 			y.WriteString("    stderr: " + filepath.Join(dir, "stdout.txt") + "\n")
 		} else {
 			y.WriteString("    stderr: " + filepath.Join(dir, "stderr.txt") + "\n")
@@ -605,7 +612,7 @@ func main() {
 				continue
 			}
 			in := Case{Stream: c.Stream, Stdout: c.Stdout, Stderr: c.Stderr, Output: c.Output, Script: c.Script, Retries: c.Retries,
-				Fails: c.Fails, Emit: c.Emit, Size: c.Size, Blk: c.Blk, SlowDone: c.SlowDone, Done: c.Done, Handler: c.Handler, Same: c.Same}
+				Fails: c.Fails, Emit: c.Emit, Size: c.Size, Blk: c.Blk, SlowDone: c.SlowDone, Done: c.Done, Handler: c.Handler, Same: c.Same, Full: c.Full}
 			add(&in)
 		}
 	} else {
@@ -667,6 +674,24 @@ func main() {
 					add(c)
 				}
 			}
+		}
+		// a redirect target whose writes fail (/dev/full): whatever happens to the redirect, the step's own log must hold
+		// what the step printed; output below one buffer, so that everything is still buffered at teardown
+		nfull := 10
+		if tier == "thorough" {
+			nfull = 96
+		}
+		for i := 0; i < nfull; i++ {
+			c := &Case{Stream: "fullredirect", Full: 1 + i%2, Output: rng.Chance(1, 3), Script: rng.Chance(1, 5),
+				Retries: []int{0, 0, 1, 2}[rng.Below(4)], Emit: []string{"both", "out", "out", "err"}[rng.Below(4)],
+				Size: []int{1, 100, 3000}[rng.Below(3)], Blk: []int{0, 1000}[rng.Below(2)], Done: rng.Below(2)}
+			if c.Full == 1 {
+				c.Stdout, c.Stderr = true, rng.Chance(1, 4)
+			} else {
+				c.Stderr, c.Stdout = true, !c.Output || rng.Bool()
+			}
+			c.Fails = c.Retries + rng.Below(2)
+			add(c)
 		}
 		// stdout: and stderr: naming the same file (fresh, or existing before the run), with and without retries
 		nsame := 10
